@@ -1,7 +1,7 @@
 (* C12 — kwoargs / posoargs / autokwoargs: advertised signature equals call behaviour. *)
 From Coq Require Import List NArith Bool Arith Permutation.
 From Sigtools.Model Require Import Base Bind Algebra Modifiers.
-From Sigtools.Proofs Require Import Modifiers.
+From Sigtools.Proofs Require Import Modifiers ModifiersFull.
 
 Theorem C12_sig_partial posos kwos ps adv kp : valid_sig ps = true -> prepare ps posos kwos = Ok (adv, kp) -> adv = adv_spec posos kwos ps /\ kp = kwopos_from posos kwos 0 ps.
 Proof. exact (prepare_spec posos kwos ps adv kp). Qed.
@@ -26,3 +26,48 @@ Print Assumptions C12_cache_no_alias.
 Theorem C12_lookup_history_independent (V : Type) (build : N -> N -> V) h : fst (desc_gets build [] h) = map (fun tf => build (fst tf) (snd tf)) h.
 Proof. exact (desc_history_independent build h). Qed.
 Print Assumptions C12_lookup_history_independent.
+
+(* ---- full statements (Proofs/ModifiersFull.v): decoration succeeds iff the selection is
+   admissible and then advertises exactly the stated rewrite; the decorated callable accepts
+   exactly the calls its advertised signature accepts and hands the function the same bindings
+   (every decorator form, the bound copy, autokwoargs with exceptions) ---- *)
+Theorem C12_sig : forall (ps : list param) (posos kwos : list name), valid_sig ps = true -> prepare ps posos kwos = (if admissible posos kwos ps then Ok (adv_spec posos kwos ps, kwopos_from posos kwos 0 ps) else Err ValueErr).
+Proof. exact @ModifiersFull.C12_sig. Qed.
+Print Assumptions C12_sig.
+
+Theorem C12_call : forall (ps : list param) (posos kwos : list name) (adv : list param) (kp : list (nat * param)) (args : list N) (kws : kwargs), valid_sig ps = true -> prepare ps posos kwos = Ok (adv, kp) -> named_posonly adv posos kws = false -> same_binding (decorated_call ps kp posos args kws) (bindv adv args kws).
+Proof. exact @ModifiersFull.C12_call. Qed.
+Print Assumptions C12_call.
+
+Theorem C12_call_excluded : forall (ps : list param) (posos kwos : list name) (adv : list param) (kp : list (nat * param)) (args : list N) (kws : kwargs), valid_sig ps = true -> prepare ps posos kwos = Ok (adv, kp) -> excluded adv kws = false -> same_binding (decorated_call ps kp posos args kws) (bindv adv args kws).
+Proof. exact @ModifiersFull.C12_call_excluded. Qed.
+Print Assumptions C12_call_excluded.
+
+Theorem C12_sig_decorate : forall (ps : list param) (f : form), valid_sig ps = true -> decorate ps f = match select ps f with | Ok ([] as posos, []) => Ok (ps, [], []) | Ok ([] as posos, (_ :: _) as kwos) | Ok ((_ :: _) as posos, kwos) => if admissible posos kwos ps then Ok (adv_spec posos kwos ps, kwopos_from posos kwos 0 ps, posos) else Err ValueErr | Err e => Err e end.
+Proof. exact @ModifiersFull.C12_sig_decorate. Qed.
+Print Assumptions C12_sig_decorate.
+
+Theorem C12_call_decorate : forall (ps : list param) (f : form) (adv : list param) (kp : list (nat * param)) (posos : list name) (args : list N) (kws : kwargs), valid_sig ps = true -> decorate ps f = Ok (adv, kp, posos) -> named_posonly adv posos kws = false -> same_binding (decorated_call ps kp posos args kws) (bindv adv args kws).
+Proof. exact @ModifiersFull.C12_call_decorate. Qed.
+Print Assumptions C12_call_decorate.
+
+Theorem C12_sig_bound : forall (ps : list param) (f : form) (adv : list param) (kp : list (nat * param)) (posos : list name), valid_sig ps = true -> decorate_bound ps f = Ok (adv, kp, posos) -> adv = drop_first ps /\ kp = [] /\ posos = [] \/ (exists kwos : list name, admissible posos kwos (drop_first ps) = true /\ adv = adv_spec posos kwos (drop_first ps) /\ kp = kwopos_from posos kwos 0 (drop_first ps)).
+Proof. exact @ModifiersFull.C12_sig_bound. Qed.
+Print Assumptions C12_sig_bound.
+
+Theorem C12_call_bound : forall (ps : list param) (f : form) (p0 : param) (ps' adv : list param) (kp : list (nat * param)) (posos : list name) (s : N) (args : list N) (kws : kwargs), valid_sig ps = true -> ps = p0 :: ps' -> is_positional p0 = true -> decorate_bound ps f = Ok (adv, kp, posos) -> kmem (pname p0) kws = false -> named_posonly adv posos kws = false -> same_binding match pok_call kp posos args kws with | Ok (args', kws') => bindv ps (s :: args') kws' | Err _ => None end (option_map (cons (pname p0, BV s)) (bindv adv args kws)).
+Proof. exact @ModifiersFull.C12_call_bound. Qed.
+Print Assumptions C12_call_bound.
+
+Theorem C12_auto_names : forall (ps : list param) (ex : list name), valid_sig ps = true -> autokwoargs_names ps ex = (if forallb (fun x : N => mem x (map pname (filter pkdef ps))) ex then Ok (auto_sel ps ex) else Err ValueErr).
+Proof. exact @ModifiersFull.C12_auto_names. Qed.
+Print Assumptions C12_auto_names.
+
+Theorem C12_auto_admissible : forall (ps : list param) (ex : list name), valid_sig ps = true -> admissible [] (auto_sel ps ex) ps = true.
+Proof. exact @ModifiersFull.C12_auto_admissible. Qed.
+Print Assumptions C12_auto_admissible.
+
+Theorem C12_sig_auto : forall (ps : list param) (ex : list name), valid_sig ps = true -> decorate ps (FAuto ex) = (if forallb (fun x : N => mem x (map pname (filter pkdef ps))) ex then match auto_sel ps ex with | [] => Ok (ps, [], []) | _ :: _ => Ok (adv_spec [] (auto_sel ps ex) ps, kwopos_from [] (auto_sel ps ex) 0 ps, []) end else Err ValueErr).
+Proof. exact @ModifiersFull.C12_sig_auto. Qed.
+Print Assumptions C12_sig_auto.
+
